@@ -131,6 +131,25 @@ def c04_3(ctx):
     _refcheck(ctx, BSC, "BitcoinSolutionChecker._signature_hash", "bsc_signature_hash", "legacy-digest-of-copy", finite="hash_type")
     _refcheck(ctx, TX, "Tx.hash", "tx_hash", "tx-hash:bitcoin")
     _refcheck(ctx, "pycoin/coins/groestlcoin/Tx.py", "Tx.hash", "grs_tx_hash", "tx-hash:groestlcoin")
+    # the 4-byte hash type is part of the digest input exactly when one is given -- 0 is a hash type (consensus-legal), None is not
+    for rel in (TX, "pycoin/coins/groestlcoin/Tx.py"):
+        hf = ctx.func(rel, "Tx.hash")
+        hp = hf.params()[1]
+        wh = sym.walk(ctx, hf)
+        conds = []
+        packs = ("stream_struct('L', ", "pack_struct('L', %s)" % hp, "struct.pack('<L', %s)" % hp)
+        for e in wh.effects:
+            if e.kind == "call" and hp in norm(e.call) and any(t in norm(e.call) for t in packs):
+                conds.append(e.reach)
+        for e in wh.exits:
+            if e.kind == "return" and e.value is not None and hp in norm(e.value) and any(t in norm(e.value) for t in packs):
+                conds.append(e.cond)
+        if not conds:
+            raise Undecided("%s Tx.hash: no place where the hash type is packed as a 4-byte little-endian integer" % rel)
+        given = gi.f_not(("op", "%s is None" % hp))
+        ctx.check(sym._equiv(gi.f_or(*conds), given), "hash-type-appended-iff-given:%s" % rel.split("/")[-2], ctx.where(hf),
+                  "Tx.hash appends the hash type when %s; it belongs to the digest exactly when hash_type is not None (hash type 0 is legal and must be appended)"
+                  % ", ".join(sorted(str(o) for c in conds for o in (gi.f_opaques(c) if c not in (True, False) else [str(c)]))[:3]))
     _refcheck(ctx, BSC, "BitcoinSolutionChecker._make_sighash_f.sig_for_hash_type_f", "bsc_sig_for_hash_type_f", "find-and-delete")
     _refcheck(ctx, BSC, "BitcoinSolutionChecker._delete_signature", "bsc_delete_signature", "opcode-aligned-delete:_delete_signature")
     _refcheck(ctx, BSC, "BitcoinSolutionChecker.delete_subscript", "bsc_delete_subscript", "opcode-aligned-delete:delete_subscript")
